@@ -167,6 +167,18 @@ theorem C07_cancel_unregisters (p : Params) (s : St) (k : Nat) (h : s.table (p.r
     (step p s (.cancel k)).table (p.reqId k) = none := by
   simp [step, h, upd]
 
+/-- **The clean-up of a finished request removes only its own entry**: when the id has meanwhile been re-used by a
+newer pending request k' (or the entry is gone), cancelling the older request's context changes nothing - the newer
+request stays registered and will get its response (`C07_delivery_when_registered`). -/
+theorem C07_cleanup_only_own (p : Params) (s : St) (k : Nat) (h : s.table (p.reqId k) ≠ some k) :
+    step p s (.cancel k) = s := by
+  simp [step, h]
+
+-- id re-used: request 0 answered, request 1 re-uses the id, context of 0 cancelled, response arrives: 1 gets it
+example : let p : Params := ⟨fun _ => 7, fun _ => 7, fun _ => true⟩
+    let s := run p init [.register 0, .take 0, .send 0, .close 0, .register 1, .cancel 0, .take 1, .send 1, .close 1]
+    s.sent 0 = 1 ∧ s.sent 1 = 1 ∧ s.closed 1 = true ∧ s.panic = false := by decide
+
 -- non-vacuity: two responses for one request, interleaved; one is delivered, the other routed normally
 example : let p : Params := ⟨fun _ => 7, fun _ => 7, fun _ => true⟩
     let s := run p init [.register 0, .take 0, .take 1, .send 0, .close 0]
@@ -184,3 +196,4 @@ end XmppVerif.Props.C07
 #print axioms XmppVerif.Props.C07.C07_delivery_when_registered
 #print axioms XmppVerif.Props.C07.C07_unmatched_goes_to_routes
 #print axioms XmppVerif.Props.C07.C07_cancel_unregisters
+#print axioms XmppVerif.Props.C07.C07_cleanup_only_own
